@@ -1,0 +1,30 @@
+//go:build verif
+
+// Contracts for rand.go (C04: queueScanLoop picks the channels whose timeouts it processes with
+// UniqRands), checked by nsqvc. Comment-only file.
+
+package util
+
+// UniqRands(quantity, maxval): min(quantity, maxval) pairwise distinct values of [0, maxval).
+// Automatic safety obligations: make size, every index, the slice bounds, division by zero in `% maxval`.
+// Preconditions from the only call site (queueScanLoop: a count and a len()): both are non-negative.
+// Loop 1 keeps the slice an injective map into [0, n) - i.e. a permutation of 0..n-1 - by swapping.
+//@ func UniqRands(quantity int, maxval int) []int
+//@   props C04
+//@   requires quantity >= 0 && maxval >= 0
+//@   ensures[count] len(result) == min(quantity, maxval)
+//@   ensures[range] forall k int :: {result[k]} 0 <= k && k < len(result) ==> 0 <= result[k] && result[k] < maxval
+//@   ensures[distinct] forall a int, b int :: {result[a], result[b]} 0 <= a && a < b && b < len(result) ==> result[a] != result[b]
+//@   ensures[fresh] fresh(result)
+//@   modifies
+//@   loop 0
+//@     invariant[bounds] 0 <= i && i <= maxval && maxval == old(maxval) && quantity == min(old(quantity), old(maxval))
+//@     invariant[slice] fresh(intSlice) && len(intSlice) == old(maxval)
+//@     invariant[identity] forall k int :: {intSlice[k]} 0 <= k && k < i ==> intSlice[k] == k
+//@     decreases maxval - i
+//@   loop 1
+//@     invariant[bounds] 0 <= i && i <= quantity && quantity == min(old(quantity), old(maxval)) && maxval == old(maxval) - i
+//@     invariant[slice] fresh(intSlice) && len(intSlice) == old(maxval)
+//@     invariant[perm-range] forall k int :: {intSlice[k]} 0 <= k && k < old(maxval) ==> 0 <= intSlice[k] && intSlice[k] < old(maxval)
+//@     invariant[perm-distinct] forall a int, b int :: {intSlice[a], intSlice[b]} 0 <= a && a < b && b < old(maxval) ==> intSlice[a] != intSlice[b]
+//@     decreases quantity - i
